@@ -538,6 +538,11 @@ func (d *Decoder) LoadParityData() error {
 				return nil, err
 			}
 
+			if parityFile.mainPacket == nil {
+				// TODO: Relax this check.
+				return nil, errors.New("no main packet found")
+			}
+
 			if d.sliceByteCount != parityFile.mainPacket.sliceByteCount {
 				return nil, errors.New("slice byte count mismatch")
 			}
